@@ -358,6 +358,8 @@ func rC10FinalNode(w *World, r *Report) {
 		case u.Kind == "write" && n == nDispatch:
 			_, isAlloc := u.Addr.X.(*ssa.Alloc)
 			ru.Check(isAlloc, "writer/Dispatch", w.IPos(u.Instr), "field of the fresh view", "Dispatch overwrites the selected node")
+		case u.Kind == "write" && isFreshZeroInit(u):
+			ru.Present("writer/"+n, w.IPos(u.Instr), "the zero value written out in a literal that creates the object")
 		default:
 			ru.Bad("writer/"+n, w.IPos(u.Instr), "unexpected "+u.Kind+" of finalNode")
 		}
@@ -1536,6 +1538,7 @@ func rC12GetEnvBody(w *World, r *Report) {
 				good, why = false, "SetCalled(name) on a path that stores nothing: a variable whose text was refused counts as supplied"
 			}
 		}
+		var kindEdges map[[2]*ssa.BasicBlock]bool
 		for _, c := range ksaves {
 			els, sp, _ := elementsOf(c.Common().Args[1], map[ssa.Value]bool{})
 			if len(sp) > 0 || len(els) != 1 {
@@ -1543,6 +1546,15 @@ func rC12GetEnvBody(w *World, r *Report) {
 				continue
 			}
 			v := els[0]
+			// one Save behind the kind switch: the text is a merge, read on the edges this kind takes
+			if _, isPhi := v.(*ssa.Phi); isPhi {
+				if kindEdges == nil {
+					_, kindEdges = ig.reachEdges([]int{0}, nil, edgeOK)
+				}
+				if vals := valuesFromEdges(v, kindEdges, map[ssa.Value]bool{}); len(vals) == 1 {
+					v = vals[0]
+				}
+			}
 			if k == "BoolType" {
 				lc, ok := v.(*ssa.Call)
 				if !ok || calleeName(lc) != "strings.ToLower" || lc.Call.Args[0] != getenv {
@@ -1895,4 +1907,28 @@ func evalPredicate(fn *ssa.Function, param *ssa.Parameter, val int64) (decided, 
 		return false, false
 	}
 	return true, results["true"]
+}
+
+// isFreshZeroInit: the write stores the zero value (nil, false, 0, "") into a field of an object that the function is
+// creating (a composite literal with the zero value spelled out).
+func isFreshZeroInit(u fieldUse) bool {
+	st, ok := u.Instr.(*ssa.Store)
+	if !ok {
+		return false
+	}
+	if _, fresh := rootOfAddr(u.Addr.X).(*ssa.Alloc); !fresh {
+		return false
+	}
+	c, ok := st.Val.(*ssa.Const)
+	if !ok {
+		return false
+	}
+	if c.Value == nil {
+		return true
+	}
+	switch c.Value.ExactString() {
+	case "false", "0", "\"\"":
+		return true
+	}
+	return false
 }
